@@ -686,7 +686,7 @@ func init() {
 		Run: runC18,
 		Post: func(total *WorkerResult) {
 			requireClasses(total, "absent/outside-grace/count-13=>switched-off", "absent/outside-grace/count-12=>stays", "absent/grace/count-13=>switched-off", "absent/grace/count-12=>stays",
-				"evidence/online-validator=>punished", "evidence/offline-candidate", "evidence/online-candidate-not-validator", "evidence/unknown-address", "evidence/second-against-same-validator-in-block",
+				"evidence/online-validator=>punished", "evidence/offline-candidate", "evidence/online-candidate-not-validator", "evidence/unknown-address", "evidence/second-against-same-validator-in-block", "evidence/validator-switched-off-by-absence-in-same-block",
 				"set-online/jailed/before-end/code-414", "set-online/jailed/after-end/code-0", "dropped/absence", "dropped/byzantine")
 		},
 	})
@@ -696,6 +696,66 @@ type c18Plan struct {
 	absent map[types.Pubkey]map[int64]bool
 	ev     map[int64][]types.TmAddress
 	safe   types.Pubkey
+	sets   map[int64]ValSet // the driver's own history of Tendermint validator sets: height -> set valid from that height on
+}
+
+// setAt returns the validator set valid at height h (updates of EndBlock(x) take effect at x+2).
+func (p *c18Plan) setAt(h int64) ValSet {
+	best := int64(-1)
+	for k := range p.sets {
+		if k <= h && k > best {
+			best = k
+		}
+	}
+	if best < 0 {
+		return ValSet{}
+	}
+	return p.sets[best]
+}
+
+func (p *c18Plan) apply(h int64, ups []abci.ValidatorUpdate) {
+	if len(ups) == 0 {
+		return
+	}
+	base := p.setAt(h + 2).clone()
+	for _, u := range ups {
+		var pk types.Pubkey
+		copy(pk[:], u.PubKey.GetEd25519())
+		if u.Power == 0 {
+			delete(base, pk)
+		} else {
+			base[pk] = u.Power
+		}
+	}
+	p.sets[h+2] = base
+	for k := range p.sets {
+		if k < h-10 && k != p.latestBefore(h-10) {
+			delete(p.sets, k)
+		}
+	}
+}
+
+func (p *c18Plan) latestBefore(h int64) int64 {
+	best := int64(-1)
+	for k := range p.sets {
+		if k <= h && k > best {
+			best = k
+		}
+	}
+	return best
+}
+
+// votes builds LastCommitInfo for block h from the set of h-1: every validator signs unless planned absent.
+func (p *c18Plan) votes(s *Sim, h int64) []Vote {
+	if h <= s.W.InitialHeight {
+		return nil
+	}
+	vs := p.setAt(h - 1)
+	var out []Vote
+	for _, pk := range vs.Sorted() {
+		out = append(out, Vote{Addr: TmAddrOf(pk), Power: vs[pk], Signed: !p.absent[pk][h]})
+	}
+	return out
 }
 
 func (p *c18Plan) add(pub types.Pubkey, hs ...int64) {
@@ -798,7 +858,7 @@ func runC18(ctx *WorkCtx, idx int) {
 
 	h0 := s.W.InitialHeight
 	G := h0 - 1 + 120 // last grace block
-	plan := &c18Plan{absent: map[types.Pubkey]map[int64]bool{}, ev: map[int64][]types.TmAddress{}}
+	plan := &c18Plan{absent: map[types.Pubkey]map[int64]bool{}, ev: map[int64][]types.TmAddress{}, sets: map[int64]ValSet{h0: s.ValSetAt(h0).clone()}}
 	nv := len(s.Gen.Validators)
 	safe := r.Intn(nv)
 	plan.safe = s.Gen.Validators[safe].PubKey
@@ -832,10 +892,14 @@ func runC18(ctx *WorkCtx, idx int) {
 				plan.pattern(r, v.PubKey, G-11+int64(r.Intn(6)), 0) // over the limit just after (or at) the end of the grace period
 			}
 		case "byzantine":
-			if r.Intn(3) == 0 {
+			first := i == (safe+1)%nv
+			if first || r.Intn(3) == 0 {
 				st := h0 + 1 + int64(r.Intn(150))
+				if first {
+					st = h0 + 1 + int64(r.Intn(40))
+				}
 				last := plan.pattern(r, v.PubKey, st, 0)
-				if r.Intn(2) == 0 {
+				if first || r.Intn(2) == 0 {
 					plan.ev[last] = append(plan.ev[last], TmAddrOf(v.PubKey)) // evidence in the block that switches it off
 				}
 			}
@@ -857,12 +921,17 @@ func c18Block(d *Driver, plan *c18Plan, kind string, evLeft *int) *BlockRes {
 	req := d.NextReq()
 	h := req.Height
 	e := s.Post
-	random := req.Votes
-	req.Votes = s.VotesFor(h, func(pk types.Pubkey) bool { return plan.absent[pk][h] })
+	random := map[types.TmAddress]bool{}
+	for _, v := range req.Votes {
+		if !v.Signed {
+			random[v.Addr] = true
+		}
+	}
+	req.Votes = plan.votes(s, h)
 	if kind == "mixed" {
 		// keep the driver's random absences (except for the safe validator) on top of the plan
 		for i := range req.Votes {
-			if i < len(random) && random[i].Addr == req.Votes[i].Addr && !random[i].Signed && req.Votes[i].Addr != TmAddrOf(plan.safe) {
+			if random[req.Votes[i].Addr] && req.Votes[i].Addr != TmAddrOf(plan.safe) {
 				req.Votes[i].Signed = false
 			}
 		}
@@ -900,9 +969,17 @@ func c18Block(d *Driver, plan *c18Plan, kind string, evLeft *int) *BlockRes {
 		if R.Float64() < p {
 			switch x := R.Intn(10); {
 			case x < 6:
+				pending := map[types.TmAddress]bool{} // validators with planned evidence ahead are left alone until then
+				for hh, as := range plan.ev {
+					if hh > h {
+						for _, a := range as {
+							pending[a] = true
+						}
+					}
+				}
 				var l []types.Pubkey
 				for _, v := range e.Validators {
-					if v.PubKey != plan.safe {
+					if v.PubKey != plan.safe && !pending[TmAddrOf(v.PubKey)] {
 						l = append(l, v.PubKey)
 					}
 				}
@@ -960,7 +1037,7 @@ func c18Block(d *Driver, plan *c18Plan, kind string, evLeft *int) *BlockRes {
 		}
 	}
 	n := len(drafts) + R.Intn(d.MaxTxs+1)
-	return s.RunBlock(req, nil, func(i int) ([]byte, TxMeta, bool) {
+	res := s.RunBlock(req, nil, func(i int) ([]byte, TxMeta, bool) {
 		if i > 0 {
 			res := s.CurRes.Deliver[i-1]
 			pm := s.Metas[i-1]
@@ -976,4 +1053,8 @@ func c18Block(d *Driver, plan *c18Plan, kind string, evLeft *int) *BlockRes {
 		b, m := g.Next()
 		return b, m, true
 	})
+	if res != nil && res.Panic == nil && !res.Stopped {
+		plan.apply(h, res.End.ValidatorUpdates)
+	}
+	return res
 }
